@@ -26,7 +26,7 @@ namespace SxVerif.Spec.HttpProbe
 open SxVerif.HttpProbe
 
 /-- slack added to the measured duration (scheduling, TLS handshakes, loopback latency), in ms -/
-def slack : Nat := 300
+def slack : Nat := 400
 
 def isJsonObject : BodyClass → Bool
   | .object | .objectEmpty | .objectWs | .objectIllTyped => true
